@@ -367,8 +367,13 @@ class MultiIndexBackend(DataFrameSchemaBackend):
 
         error_handler = ErrorHandler(lazy=True)
 
-        # construct MultiIndex with coerced data types
-        coerced_multi_index = {}
+        # construct MultiIndex with coerced data types; levels that no index
+        # component of the schema refers to by name are kept as they are (the
+        # mismatch is reported when the index is validated)
+        coerced_multi_index = {
+            level: check_obj.get_level_values(level)
+            for level in range(check_obj.nlevels)
+        }
         for i, index in enumerate(schema.indexes):
             if all(x is None for x in schema.names):
                 index_levels = [i]
